@@ -314,7 +314,7 @@ def c18_variants(sc, seed):
     a["model"]["class"] = "base"
     b = copy.deepcopy(sc)
     b["model"]["class"] = "psi"
-    b["model"]["psi"] = random.Random(seed).choice([1.0, 1, "1_0"])
+    b["model"]["psi"] = random.Random(seed).choice([1.0, 1, "1_0", "1", "1.0"])
     b["model"]["restoration_tau"] = int(sc["model"]["dt"])
     if random.Random(seed + 2).random() < 0.3:
         # an input kept without any inventory (0 days: accepted with a warning, treated as the minimum of 2 steps)
@@ -867,3 +867,37 @@ def c19_periodic(sc, base, seed):
     out += cmp_records("C19", ra, rb, f"an arbitrary loss recovering across temporal unit 182, delayed by 60 steps ({k} temporal units)",
                        rtol=1e-9, atol_scale=1e-9, rows_a=slice(0, n), rows_b=slice(k, k + n))
     return out
+
+
+def pure_manual(sc, base, seed, pid="C10"):
+    """the same run driven by nothing but next_step() calls (no attribute of the simulation is touched in between): same records
+    as loop()"""
+    out = []
+    if "error" in base or seed % 2 != 1:
+        return out
+    tw = copy.deepcopy(sc)
+    tw["sim"]["show_progress"] = False
+    try:
+        sim = scen.build_sim(tw)
+        dt = int(sc["model"].get("dt", 1))
+        crashed = False
+        for _ in range(0, sc["T"], dt):
+            if sim.next_step() == 1:
+                crashed = True
+                break
+        b = {r: getattr(sim, r).to_numpy(dtype=float).copy() for r in RECORDS}
+        b["n"] = int(sim.current_temporal_unit)
+        b["crashed"] = bool(crashed)
+        b["columns"] = list(sim.production_realised.columns)
+    except Exception as e:
+        b = {"error": f"{type(e).__name__}: {e}"}
+    out += cmp_records(pid, base, b, "the run driven by next_step() calls only, against loop()")
+    return out
+
+
+def pure_manual_c09(sc, base, seed):
+    return pure_manual(sc, base, seed, pid="C09")
+
+
+def pure_manual_c16(sc, base, seed):
+    return pure_manual(sc, base, seed, pid="C16")
